@@ -101,3 +101,235 @@ Proof.
 Qed.
 
 End TreeFacts.
+
+(** * The specification of C02: one leaf, the events that concern it *)
+
+(** the future guard of the property statement: a threshold is configured,
+    the update is further ahead of the clock than the threshold, a latest
+    accepted timestamp > 0 is known and the update is further ahead of it too *)
+Definition future_guard (thr now : Z) (latest : option Z) (ts : Z) : bool :=
+  Z.ltb 0 thr && Z.ltb thr (ts - now) &&
+  match latest with
+  | Some l => Z.ltb 0 l && Z.ltb thr (ts - l)
+  | None => false
+  end.
+
+Inductive lev :=
+| LUpd (now : Z) (latest : option Z) (m : notif)   (* an update unit addressed to this leaf *)
+| LDel (ts : Z).                                   (* a delete at time [ts] matching this leaf *)
+
+(** the four-line recursion *)
+Definition spec_leaf_step (thr : Z) (old : option notif) (e : lev) : option notif :=
+  match e, old with
+  | LUpd now latest m, None => Some m
+  | LUpd now latest m, Some o =>
+      if Z.ltb (n_ts m) (n_ts o) then Some o                               (* older: stale *)
+      else if Z.eqb (n_ts m) (n_ts o) then
+        if notif_eqb o m then Some o else Some m                           (* identical: stale; else replaces *)
+      else if future_guard thr now latest (n_ts m) then Some o             (* too far ahead *)
+      else Some m                                                          (* newer: wins *)
+  | LDel ts, Some o => if Z.ltb (n_ts o) ts then None else Some o
+  | LDel ts, None => None
+  end.
+
+Definition spec_leaf (thr : Z) (evs : list lev) : option notif :=
+  fold_left (spec_leaf_step thr) evs None.
+
+(** * Frame: what gnmiUpdate / gnmiRemove never touch *)
+
+Definition frame (t t' : target) : Prop :=
+  t_ts t' = t_ts t /\ t_cfg t' = t_cfg t /\ t_name t' = t_name t.
+
+Lemma frame_refl t : frame t t.
+Proof. repeat split. Qed.
+
+Lemma frame_trans t1 t2 t3 : frame t1 t2 -> frame t2 t3 -> frame t1 t3.
+Proof. unfold frame. intuition congruence. Qed.
+
+Lemma frame_add_int t k i : frame t (add_int t k i).
+Proof. repeat split. Qed.
+
+Lemma tree_add_int t k i : t_tree (add_int t k i) = t_tree t.
+Proof. reflexivity. Qed.
+
+Lemma frame_lat_compute t r ts : frame t (lat_compute t r ts).
+Proof. unfold lat_compute. destruct (t_sync t && r); repeat split. Qed.
+
+Lemma tree_lat_compute t r ts : t_tree (lat_compute t r ts) = t_tree t.
+Proof. unfold lat_compute. destruct (t_sync t && r); reflexivity. Qed.
+
+Lemma future_rejected_guard t now ts :
+  future_rejected t now ts = future_guard (cfg_future_threshold (t_cfg t)) now (t_ts t) ts.
+Proof.
+  unfold future_rejected, future_guard. destruct (t_ts t) as [l|]; cbn [ts_unixnano].
+  - rewrite <- andb_assoc. f_equal. f_equal. f_equal.
+    + destruct (Z.leb_spec l 0), (Z.ltb_spec 0 l); cbn; try reflexivity; lia.
+    + destruct (Z.leb_spec (ts - l) (cfg_future_threshold (t_cfg t))),
+               (Z.ltb_spec (cfg_future_threshold (t_cfg t)) (ts - l)); cbn; try reflexivity; lia.
+  - unfold zero_time_unixnano. cbn. now rewrite !andb_false_r.
+Qed.
+
+Lemma leaf_verdict_frame t t1 now o n : frame t t1 -> leaf_verdict t1 now o n = leaf_verdict t now o n.
+Proof.
+  intros (Hts & Hc & _). unfold leaf_verdict. rewrite !future_rejected_guard, Hts, Hc. reflexivity.
+Qed.
+
+(** the model's verdict on an existing leaf is the specification's rule *)
+Lemma leaf_verdict_spec t now o n :
+  (match leaf_verdict t now o n with Some _ => Some o | None => Some n end) =
+  spec_leaf_step (cfg_future_threshold (t_cfg t)) (Some o) (LUpd now (t_ts t) n).
+Proof.
+  unfold leaf_verdict, spec_leaf_step. rewrite future_rejected_guard.
+  destruct (Z.ltb (n_ts n) (n_ts o)); [reflexivity|].
+  destruct (Z.eqb (n_ts n) (n_ts o)); cbn [andb negb].
+  - destruct (notif_eqb o n); reflexivity.
+  - destruct (future_guard _ _ _ _); reflexivity.
+Qed.
+
+(** * gnmiUpdate, one unit *)
+
+Definition meta_val_ok (k : string) (v : option tv) : bool :=
+  if String.eqb k md_sync || String.eqb k md_connected
+  then match v with Some (TBool _) => true | _ => false end
+  else if String.eqb k md_connected_addr || String.eqb k md_connect_error
+  then match v with Some (TStr _) => true | _ => false end
+  else true.
+
+(** the index path of a unit that reaches the leaf switch: the path is
+    computed without panic, is not empty, not [meta] alone, and a metadata
+    value has the type its name requires *)
+Definition unit_ok (m : notif) : option path :=
+  match n_upd m with
+  | [] => None
+  | u :: _ =>
+      match unit_index m with
+      | Ok (p0 :: prest) =>
+          if negb (String.eqb p0 md_root) then Some (p0 :: prest)
+          else match prest with
+               | [] => None
+               | k :: _ => if meta_val_ok k (u_val u) then Some (p0 :: prest) else None
+               end
+      | _ => None
+      end
+  end.
+
+Lemma meta_side_effect_frame t k u t1 r :
+  meta_side_effect t k u = (t1, r) -> t_tree t1 = t_tree t /\ frame t t1.
+Proof.
+  unfold meta_side_effect.
+  destruct (String.eqb k md_sync); [|destruct (String.eqb k md_connected);
+    [|destruct (String.eqb k md_connected_addr || String.eqb k md_connect_error)]];
+  destruct (u_val u) as [[]|]; intros E; inversion E; subst; (split; [reflexivity|repeat split]).
+Qed.
+
+Lemma update_pre_frame t p u t1 r :
+  update_pre t p u = (t1, r) -> t_tree t1 = t_tree t /\ frame t t1.
+Proof.
+  unfold update_pre. destruct p as [|p0 prest].
+  - intros E; inversion E; subst. split; [reflexivity|apply frame_refl].
+  - destruct (negb (String.eqb p0 md_root)).
+    + intros E; inversion E; subst. split; [reflexivity|apply frame_refl].
+    + destruct prest as [|k ?].
+      * intros E; inversion E; subst. split; [reflexivity|apply frame_refl].
+      * apply meta_side_effect_frame.
+Qed.
+
+Lemma meta_side_effect_ok t k u :
+  meta_val_ok k (u_val u) = true -> exists t1, meta_side_effect t k u = (t1, Ok tt).
+Proof.
+  unfold meta_val_ok, meta_side_effect.
+  destruct (String.eqb k md_sync); cbn [orb].
+  - destruct (u_val u) as [[]|]; try discriminate. eauto.
+  - destruct (String.eqb k md_connected).
+    + destruct (u_val u) as [[]|]; try discriminate. eauto.
+    + destruct (String.eqb k md_connected_addr || String.eqb k md_connect_error).
+      * destruct (u_val u) as [[]|]; try discriminate. eauto.
+      * eauto.
+Qed.
+
+Lemma meta_side_effect_bad t k u t1 r :
+  meta_val_ok k (u_val u) = false -> meta_side_effect t k u = (t1, r) -> r <> Ok tt.
+Proof.
+  unfold meta_val_ok, meta_side_effect.
+  destruct (String.eqb k md_sync); cbn [orb].
+  - destruct (u_val u) as [[]|]; try discriminate; intros _ E; inversion E; discriminate.
+  - destruct (String.eqb k md_connected).
+    + destruct (u_val u) as [[]|]; try discriminate; intros _ E; inversion E; discriminate.
+    + destruct (String.eqb k md_connected_addr || String.eqb k md_connect_error).
+      * destruct (u_val u) as [[]|]; try discriminate; intros _ E; inversion E; discriminate.
+      * discriminate.
+Qed.
+
+(** what a unit does to the leaf it addresses *)
+Definition leaf_rule (t : target) (now : Z) (old : option notif) (n : notif) : option notif :=
+  spec_leaf_step (cfg_future_threshold (t_cfg t)) old (LUpd now (t_ts t) n).
+
+Definition collision (r : outcome (option notif)) : Prop :=
+  r = Err err_collision \/ r = Err err_add.
+
+Lemma update_leaf_spec t1 now p u n t2 r :
+  wf_tree (t_tree t1) -> update_leaf t1 now p u n = (t2, r) ->
+  wf_tree (t_tree t2) /\ frame t1 t2 /\
+  ((collision r /\ t_tree t2 = t_tree t1) \/
+   (~ collision r /\
+    forall q, lookup (t_tree t2) q =
+              if path_eqb q p then leaf_rule t1 now (lookup (t_tree t1) p) n
+              else lookup (t_tree t1) q)).
+Proof.
+  intros Hwf. unfold update_leaf.
+  destruct (CTreeModel.get (t_tree t1) p) as [[old|cs]|] eqn:Hg.
+  - (* existing leaf *)
+    pose proof (proj1 (get_leaf_lookup _ _ _) Hg) as Hl.
+    assert (Hrule : forall q, (if path_eqb q p then Some old else lookup (t_tree t1) q) = lookup (t_tree t1) q).
+    { intros q. destruct (path_eqb_spec q p) as [->|]; congruence. }
+    unfold leaf_rule. rewrite Hl, <- leaf_verdict_spec.
+    destruct (leaf_verdict t1 now old n) as [e|] eqn:Hv.
+    + intros E; inversion E; subst. split; [exact Hwf|]. split; [apply frame_add_int|].
+      right. split; [intros [H|H]; inversion H; subst;
+                     unfold leaf_verdict in Hv;
+                     repeat match type of Hv with (if ?b then _ else _) = _ => destruct b end; discriminate|].
+      intros q. rewrite tree_add_int. now rewrite Hrule.
+    + pose proof (add_over_leaf (t_tree t1) p n old Hg) as Hne.
+      unfold tree_set. destruct (CTreeModel.add (t_tree t1) p n) as [tr'|] eqn:Ha; [|congruence].
+      destruct (tree_add_spec _ _ _ _ Hwf Ha) as (Hwf' & Hlk).
+      assert (Hall : forall t2 r, t_tree t2 = tr' -> frame t1 t2 -> ~ collision r ->
+                wf_tree (t_tree t2) /\ frame t1 t2 /\
+                ((collision r /\ t_tree t2 = t_tree t1) \/
+                 (~ collision r /\ forall q, lookup (t_tree t2) q =
+                    if path_eqb q p then Some n else lookup (t_tree t1) q))).
+      { intros t2' r' Ht Hf Hc. rewrite Ht. split; [exact Hwf'|]. split; [exact Hf|]. right. split; [exact Hc|]. exact Hlk. }
+      destruct (n_atomic n).
+      * intros E; inversion E; subst. apply Hall.
+        -- now rewrite tree_lat_compute.
+        -- eapply frame_trans; [|apply frame_lat_compute]. repeat split.
+        -- intros [H|H]; discriminate.
+      * destruct (n_upd old) as [|uo ?].
+        -- intros E; inversion E; subst. apply Hall; [reflexivity|repeat split|intros [H|H]; discriminate].
+        -- match goal with |- (if ?b then _ else _) = _ -> _ => destruct b end;
+           intros E; inversion E; subst; apply Hall.
+           ++ reflexivity.
+           ++ repeat split.
+           ++ intros [H|H]; discriminate.
+           ++ now rewrite tree_lat_compute.
+           ++ eapply frame_trans; [|apply frame_lat_compute]. repeat split.
+           ++ intros [H|H]; discriminate.
+  - (* a branch is in the way *)
+    intros E; inversion E; subst. split; [exact Hwf|]. split; [apply frame_refl|].
+    left. split; [left; reflexivity|reflexivity].
+  - (* new leaf *)
+    pose proof (get_none_lookup _ _ Hg) as Hl.
+    destruct (CTreeModel.add (t_tree t1) p n) as [tr'|] eqn:Ha.
+    + destruct (tree_add_spec _ _ _ _ Hwf Ha) as (Hwf' & Hlk).
+      intros E; inversion E; subst; clear E.
+      assert (Ht : t_tree (if is_real p
+                   then lat_compute (add_int (add_int (set_tree t1 tr') md_leaf_count 1) md_add_count 1) true (n_ts n)
+                   else set_tree t1 tr') = tr').
+      { destruct (is_real p); [now rewrite tree_lat_compute|reflexivity]. }
+      rewrite Ht. split; [exact Hwf'|]. split.
+      * destruct (is_real p); [|repeat split].
+        eapply frame_trans; [|apply frame_lat_compute]. repeat split.
+      * right. split; [intros [H|H]; discriminate|].
+        intros q. rewrite Hlk. unfold leaf_rule. now rewrite Hl.
+    + intros E; inversion E; subst. split; [exact Hwf|]. split; [apply frame_refl|].
+      left. split; [right; reflexivity|reflexivity].
+Qed.
